@@ -396,7 +396,9 @@ class Sched(object):
             elif k == "fsop":
                 acts.append(Action("%s:%s(%s)" % (n, op[1], self.rel(op[2])), p, "fsop", self._mk_fsop(p, op[1], op[2], op[3], op[4]), 1))
             elif k == "pause":
-                acts.append(Action("%s:resume(%s)" % (n, op[1]), p, "pause", self._mk_res(p, None), 1))
+                # a sleep is a yield: in the default order everything else that can move (other processes, the
+                # feeder threads) moves first, so that a polling loop does not starve what it is waiting for
+                acts.append(Action("%s:resume(%s)" % (n, op[1]), p, "pause", self._mk_res(p, None), 2.5 if op[1] == "sleep" else 1))
             elif k in ("start", "close", "join_thread", "local"):
                 pass  # eager; blocked ones (join_thread waiting for the feeder) are not enabled
             else:
